@@ -718,3 +718,88 @@ theorem matchAt_none_of_blocked {W : CSet} {r : Re} {w : List Nat} {d : Nat} (hb
     | _ => simp at hb
 
 end MindsVerif.Re
+
+namespace MindsVerif.Re
+
+/-- a keyword rule DOES match its word in front of a character that is no word character -/
+theorem kwTail_matches_at (W : CSet) (d : Nat) (hWd : W.mem d = false) (rest : List Nat) : ∀ (sets : List CSet) (r : Re),
+    kwTail r = some sets →
+    ∀ (pre u : List Nat) (k : Pos → Option Pos), kwMatch sets u = true → (∀ c ∈ u, W.mem c = true) →
+      (sets = [] → isWordAt W pre.head? = true) →
+      m W r ⟨pre, u ++ d :: rest⟩ k = k ⟨u.reverse ++ pre, d :: rest⟩ := by
+  intro sets
+  induction sets with
+  | nil =>
+    intro r hr pre u k hm _ hprev
+    cases u with
+    | cons c t => simp [kwMatch] at hm
+    | nil =>
+      cases r with
+      | bound neg =>
+        cases neg with
+        | true => simp [kwTail] at hr
+        | false =>
+          have hp := hprev rfl
+          have hnext : isWordAt W (some d) = false := by simp [isWordAt, hWd]
+          simp only [m, List.nil_append, List.head?_cons, hp, hnext]
+          simp
+      | seq x y =>
+        cases x with
+        | set s => simp only [kwTail, Option.map_eq_some_iff] at hr; obtain ⟨_, _, h0⟩ := hr; cases h0
+        | _ => simp [kwTail] at hr
+      | _ => simp [kwTail] at hr
+  | cons s ss ih =>
+    intro r hr pre u k hm hall _
+    cases r with
+    | seq x y =>
+      cases x with
+      | set s' =>
+        simp only [kwTail, Option.map_eq_some_iff] at hr
+        obtain ⟨ss', hy, h0⟩ := hr
+        simp only [List.cons.injEq] at h0
+        obtain ⟨e1, e2⟩ := h0
+        subst e1; subst e2
+        cases u with
+        | nil => simp [kwMatch] at hm
+        | cons c t =>
+          simp only [kwMatch, Bool.and_eq_true] at hm
+          have hW : W.mem c = true := hall c List.mem_cons_self
+          simp only [List.cons_append]
+          rw [m_seq, m_set_cons, if_pos hm.1]
+          rw [ih y hy (c :: pre) t k hm.2 (fun x hx => hall x (List.mem_cons_of_mem _ hx)) (fun _ => by simp [isWordAt, hW])]
+          simp
+      | _ => simp [kwTail] at hr
+    | bound neg => cases neg <;> simp [kwTail] at hr
+    | _ => simp [kwTail] at hr
+
+theorem kw_matches_at {W : CSet} {r : Re} {sets : List CSet} (hk : kwSets r = some sets) (hne : sets ≠ [])
+    {d : Nat} (hWd : W.mem d = false) {pre u rest : List Nat} (hprev : isWordAt W pre.head? = false)
+    (hm : kwMatch sets u = true) (hall : ∀ c ∈ u, W.mem c = true) :
+    matchAt W r ⟨pre, u ++ d :: rest⟩ = some ⟨u.reverse ++ pre, d :: rest⟩ := by
+  cases r with
+  | seq x y =>
+    cases x with
+    | bound neg =>
+      cases neg with
+      | true => simp [kwSets] at hk
+      | false =>
+        simp only [kwSets] at hk
+        cases u with
+        | nil =>
+          cases sets with
+          | nil => exact absurd rfl hne
+          | cons s ss => simp [kwMatch] at hm
+        | cons c t =>
+          have hW : W.mem c = true := hall c List.mem_cons_self
+          unfold matchAt
+          rw [m_seq]
+          have hb : m W (.bound false) ⟨pre, (c :: t) ++ d :: rest⟩ (fun q => m W y q some)
+              = m W y ⟨pre, (c :: t) ++ d :: rest⟩ some := by
+            have hsome : isWordAt W (some c) = true := by simp [isWordAt, hW]
+            simp only [m, List.cons_append, List.head?_cons, hprev, hsome]
+            simp
+          rw [hb, kwTail_matches_at W d hWd rest sets y hk pre (c :: t) some hm hall (fun h0 => absurd h0 hne)]
+    | _ => simp [kwSets] at hk
+  | _ => simp [kwSets] at hk
+
+end MindsVerif.Re
